@@ -48,7 +48,7 @@ func TestC09_StorageLiabilitiesBacked(t *testing.T) {
 	st.Assume("storage contract: liabilities = delegate stakes + unpaid delegate and provider rewards + write pools + challenge pools + read pools over every stake pool, allocation and client of the history; newly accrued reward = block_reward.block_reward (plus one unit per blobber for rounding) for blobber_block_rewards, nothing otherwise")
 	grew := map[string]bool{}
 	caseReset["C09"] = func() { grew = map[string]bool{} }
-	ops := append([]string{"newAlloc2", "extend2", "extend2", "freeAlloc", "addAssigner", "readRedeem2", "readRedeem2", "replaceBlobber", "kill", "blockRewards2", "blockRewards2", "collect", "unstake"}, defaultOps...)
+	ops := append([]string{"storageSettings", "blobberSettings2", "blobberSettings2", "fillAlloc", "fillAlloc", "replaceChallenged", "replaceChallenged", "extend2", "newAlloc2", "extend2", "extend2", "freeAlloc", "addAssigner", "readRedeem2", "readRedeem2", "replaceBlobber", "kill", "blockRewards2", "blockRewards2", "collect", "unstake"}, defaultOps...)
 	runMachineOps(t, "C09", ops, storageDomain+" plus free-storage grants and read markers of several readers; oracle after every applied transaction: (liabilities after - liabilities before) <= (contract wallet after - before) + newly accrued block reward, where liabilities = all delegate stakes + unpaid rewards + write pools + challenge pools + read pools; non-trivial = history in which pools of >= 4 different kinds of transaction grew; distinct by history", 40, 90,
 		func(m *machine, txn *transaction.Transaction, o sim.Outcome, before *snapshot) error {
 			after := m.snap()
@@ -283,7 +283,7 @@ func TestC23_KillDisablesExactlyThatProvider(t *testing.T) {
 	dead := map[string]string{} // provider id -> how it died (model)
 	interesting := 0
 	caseReset["C23"] = func() { interesting, dead = 0, map[string]string{} }
-	ops := []string{"kill", "kill", "kill", "shutdown", "shutdown", "shutdown", "stake", "stake", "unstake", "collect", "newAlloc2", "newAlloc2", "upload", "upload", "challenge", "challenge", "respond",
+	ops := []string{"kill", "kill", "kill", "shutdown", "shutdown", "shutdown", "shutdown", "stake", "stake", "unstake", "collect", "newAlloc2", "newAlloc2", "upload", "upload", "challenge", "challenge", "respond", "storageSettings", "blobberSettings2", "blobberSettings2", "fillAlloc",
 		"readRedeem2", "blockRewards2", "blockRewards2", "cancel", "finalize", "advance", "replaceBlobber"}
 	runMachineOps(t, "C23", ops, "generated storage histories biased to kill_blobber / kill_validator / shutdown_blobber / shutdown_validator sent by the contract owner, the provider's delegate wallet, the provider's own wallet and a stranger, repeated on dead providers, on providers with and without allocations, data and extra delegates, followed by reward-bearing operations (challenge responses, read markers, block rewards, closes); oracle: an authorised call on a live provider (kill: contract owner; shutdown: contract owner or delegate wallet) marks that provider's own stake pool dead and multiplies every delegate balance by (1 - slash) once (or removes an empty provider); any other call changes no stake pool and no provider node; no stake pool node ever exists under a wallet id that is not a registered provider; no other provider's stake pool or node changes; a dead provider's unpaid rewards never grow again; non-trivial = history with an authorised shutdown by a delegate wallet or a kill followed by a reward-bearing transaction; distinct by history", 40, 90,
 		func(m *machine, txn *transaction.Transaction, o sim.Outcome, before *snapshot) error {
@@ -345,14 +345,24 @@ func TestC23_KillDisablesExactlyThatProvider(t *testing.T) {
 			sb, hadSP := before.spool[pid]
 			sa, haveSP := after.spool[pid]
 			owner := m.w.S.Owner.ID
-			authorised := txn.ClientID == owner || (isShut && hadSP && txn.ClientID == sb.DelegateWallet)
+			// "its delegate wallet" is the one named in the provider's own record (update_blobber_settings can change it)
+			delegate := sb.DelegateWallet
+			if bb, isB := before.blob[pid]; isB && bb.DelegateWallet != "" {
+				delegate = bb.DelegateWallet
+				if hadSP && sb.DelegateWallet != bb.DelegateWallet {
+					return fmt.Errorf("%s", m.viol("delegate-wallet-of-stake-pool-differs", "blobber %s names delegate wallet %s, its stake pool %s", m.h.Label(pid), m.h.Label(bb.DelegateWallet), m.h.Label(sb.DelegateWallet)))
+				}
+			}
+			authorised := txn.ClientID == owner || (isShut && hadSP && txn.ClientID == delegate)
 			_, wasDead := dead[pid]
 			caller := "stranger"
 			switch txn.ClientID {
 			case owner:
 				caller = "owner"
-			case p.Delegate.ID:
+			case delegate:
 				caller = "delegate"
+			case p.Delegate.ID:
+				caller = "former-delegate"
 			case p.Op.ID:
 				caller = "provider"
 			}
